@@ -815,6 +815,23 @@ theorem findTask_some {n : Str} {l : List TaskM} {t : TaskM} (h : findTask n l =
     · cases h; exact ⟨by simp, ha⟩
     · exact ⟨List.mem_cons_of_mem _ (ih h).1, (ih h).2⟩
 
+/-- with pairwise distinct names every record is found under its own name – never another record that merely
+    shares the operation or whose operation is called like the task -/
+theorem findTask_of_nodup {l : List TaskM} (hnd : (l.map TaskM.name).Nodup) {t : TaskM} (ht : t ∈ l) :
+    findTask t.name l = some t := by
+  induction l with
+  | nil => cases ht
+  | cons a l ih =>
+    simp only [List.map_cons, List.nodup_cons] at hnd
+    simp only [findTask]
+    rcases List.mem_cons.mp ht with rfl | hin
+    · simp
+    · have hne : a.name ≠ t.name := by
+        intro he
+        exact hnd.1 (by rw [he]; exact List.mem_map_of_mem hin)
+      simp only [hne, if_false]
+      exact ih hnd.2 hin
+
 theorem findTask_isSome_iff (n : Str) (l : List TaskM) : (findTask n l).isSome ↔ ∃ t ∈ l, t.name = n := by
   induction l with
   | nil => simp [findTask]
